@@ -16,3 +16,4 @@ import Grenad.Model.WriterIO
 import Grenad.Model.EntriesBytes
 import Grenad.Model.MetaIO
 import Grenad.Model.BinSearch
+import Grenad.Model.BinHeap
